@@ -796,6 +796,21 @@ def judge_reqs_conc(case, obs):
     return reqs
 
 
+def gen_kernel(rng):
+    """race kernel: two threads with ONE operation each on the same parameter (every pair of: equal / different value
+    by assignment, read, write, announce; failing read), sometimes a third thread that activates a second connection;
+    small enough that all schedules with one preemption are enumerated"""
+    cat = [['assign', 0], ['assign', 1], ['read', 'ret', 0], ['read', 'ret', 1], ['read', 'raise', 0],
+           ['write', 1, 'ok', ['none']], ['announce', 0, None, False]]
+    params = [{'kind': rng.choice(['float', 'int', 'enum', 'string']), 'uu': rng.choice(['default', 'never', 2.0, 'always']),
+               'nodefault': False, 'has_write': rng.random() < 0.5, 'has_check': False, 'readonly': False}]
+    progs = [[[0, list(rng.choice(cat))]], [[0, list(rng.choice(cat))]]]
+    if rng.random() < 0.4:
+        progs.append([[None, ['activate', 1, rng.choice(ACT_KINDS), 0]]])
+    return {'params': params, 'mw': rng.choice([None, 1.0]), 'gw': rng.choice([0.0, 1.0]), 'nconn': 2, 'pre': [[0, 'all', 0]],
+            'tick': rng.choice([0, 1]), 'progs': progs, 'kernel': True}
+
+
 def conc_shrink(ctx, case, errs, tables, clause, runs=40):
     """fewer operations / threads / earlier activations that still show the same clause under SOME schedule with at most
     two preemptions (the schedule is searched again for every candidate); returns the small case with its schedule"""
@@ -853,7 +868,9 @@ def gen_conc(rng, big):
         progs.append(prog)
     nconn = rng.choice([1, 2, 2, 3])
     # connections activated before the threads start, and activation requests handled while the funnel is in use
-    pre = [[ci, rng.choice(ACT_KINDS), rng.randrange(npar)] for ci in range(nconn) if rng.random() < 0.6]
+    # (most runs have a connection that is activated all along: it is the one that sees every race between funnel calls)
+    pre = [[ci, 'all' if ci == 0 else rng.choice(ACT_KINDS), rng.randrange(npar)] for ci in range(nconn)
+           if rng.random() < (0.85 if ci == 0 else 0.5)]
     for _ in range(rng.choice([0, 1, 1, 1, 2])):
         if len(progs) < 3 and rng.random() < 0.4:
             progs.append([])                      # a handler thread that only activates
@@ -1412,6 +1429,8 @@ def run(ctx):
     for _ in range(ncases):
         conc_cases.append(gen_conc(rng, big))
     per_case = max(4, n_sched // max(1, len(conc_cases)))
+    for _ in range(ctx.budget(20, 150)):
+        conc_cases.append(gen_kernel(rng))
     reqs, meta = [], []
     for case in conc_cases:
         def make_run(policy, case=case):
@@ -1422,6 +1441,9 @@ def run(ctx):
             from vlib.sched import ReplayThenDefault
             req, obs, s = impl_conc(case, errs, tables, ReplayThenDefault(case['choices']))
             runs = [(req, obs)]
+        elif case.get('kernel'):
+            runs = [ro for _, s, ro in explore(make_run, max_preemptions=1, max_runs=80)]
+            res.count('conc.kernel-schedules=' + ('<40' if len(runs) < 40 else '40-79' if len(runs) < 80 else '80 (cut)'))
         else:
             runs = []
             for _, s, ro in explore(make_run, max_preemptions=2, max_runs=(per_case * 2) // 3, rng=rng):
